@@ -27,7 +27,11 @@ def _chunk_size():
 CHUNK = _chunk_size()
 
 HARNESSES = [dict(name="c20", src="harness/c20.cpp", repo_srcs=["rkcommon/tracing/Tracing.cpp"],
-                  args=[os.path.join(core.CACHE, "c20")], driver_args=[str(CHUNK)], timeout=900)]
+                  args=[os.path.join(core.CACHE, "c20")], driver_args=[str(CHUNK)], timeout=900),
+             # RKCOMMON_NO_SIMD is a supported configuration (another layout of the padded vector types is possible
+             # there): the image cases only
+             dict(name="c20nosimd", src="harness/c20.cpp", repo_srcs=["rkcommon/tracing/Tracing.cpp"], flags=["-DRKCOMMON_NO_SIMD"],
+                  args=[os.path.join(core.CACHE, "c20ns")], driver_args=[str(CHUNK)], timeout=900, images_only=True)]
 
 RULE = ("image cases: widths/heights 1..9 (thorough 1..40) with single rows/columns and non-square sizes forced, all six "
         "writers (writePPM, writePGM, writePFM<float|vec3f|vec3fa|vec4f>), pixel words either arithmetic progressions that make "
@@ -181,6 +185,11 @@ def gen_cases(rng, tier, h):
     _clean_stale()
     cases = []
     quick = tier == "quick"
+    if h.get("images_only"):
+        for fmt, wpp in FORMATS:
+            cases.append([_img(rng, fmt, wpp, w, hh) for (w, hh) in ((1, 1), (2, 1), (1, 3), (3, 2), (5, 4), (8, 3))])
+            cases.append([_img(rng, fmt, wpp, *_size(rng, 9)) for _ in range(4 if quick else 40)])
+        return cases
     # ---- the empty log, alone in its case (every `save` runs in its own process in the harness)
     cases.append(["save -"])
     cases.append(["save proc"])
@@ -191,6 +200,11 @@ def gen_cases(rng, tier, h):
     # ---- traces
     for _ in range(120 if quick else 4000):
         cases.append(_trace_case(rng))
+    # saveLog called twice in one process
+    for _ in range(12 if quick else 300):
+        c = _trace_case(rng)
+        c[-1] = "save2 " + c[-1].split()[1]
+        cases.append(c)
     # the same kind of programs recorded by threads that run one after the other (thread ids may be reused)
     for _ in range(25 if quick else 600):
         c = _trace_case(rng)
@@ -240,7 +254,7 @@ def gen_cases(rng, tier, h):
 def nontrivial(case):
     for l in case:
         w = l.split()
-        if w[0] in ("save", "saveseq"):
+        if w[0] in ("save", "saveseq", "save2"):
             return True
         if w[0] in ("img", "imgpat") and int(w[2]) * int(w[3]) >= 2:
             return True
